@@ -473,9 +473,9 @@ def rules_send(run, P='C05', rid='.6'):
 
 
 def check(run):
-    rules_owners(run)
-    rules_insertion(run)
-    rules_select_event(run)
-    rules_consumption(run)
-    rules_between(run)
-    rules_send(run)
+    run.guard(rules_owners, run)
+    run.guard(rules_insertion, run)
+    run.guard(rules_select_event, run)
+    run.guard(rules_consumption, run)
+    run.guard(rules_between, run)
+    run.guard(rules_send, run)
